@@ -14,6 +14,7 @@ C = {
  "C05": ("model_checking", KANI, "kani", "Bounded model checking of MDBShardInfo::chunk_hash_dedup_query_direct over fully symbolic serialized CAS blocks (3 chunks quick, 4 thorough), queries and keys: every answer is truthful.", "blake3 keyed hash replaced by a deterministic mixing stub; CAS block representation invariant assumed; in-memory index and shard manager histories outside."),
  "C07": ("model_checking", KANI, "kani", "Bounded model checking of the chunk header codec for all 2^24 x 2^24 x 3 (length, length, scheme) triples and of BG4 split/regroup (unsafe pointer code, memory checks on) for lengths 1,2,3,8 (13,14,15 thorough).", "LZ4 codecs, chunk payload (de)serialization through std::io::copy and whole-xorb round trips did not get through CBMC (measured) and are outside."),
  "C08": ("model_checking", MA, "mirsym", "Symbolic execution of the xorb footer parsers' MIR with every field read from the input a free variable: every overflow check is a verification condition and every allocation size must be bounded by a constant. Found and (after the fix) excludes the unbounded resize / overflow in deserialize_only_boundaries_section.", "Reader calls havocked; loops entered at most once; panics inside callee bodies not seen; hash agreement of validate_cas_object outside."),
+ "C09": ("model_checking", MA + " over a symbolic sorted table (SMT arrays; cvc5 bit-vector + z3); " + KANI, "kani+mirsym", "Inductive verification of search_on_sorted_u64s (every file / xorb / chunk lookup of a shard) from its MIR against a symbolic sorted table of ANY length, any window / duplicate-jump constants, any interpolation result: an arbitrary entry whose key equals the probe key is reported before Ok is returned, only entries with that key are reported, none twice, every read stays inside the table; the probe clamp and the result writer are verified on the closures' MIR; the three index lookups pass their own table's offset / count and the truncated hash; the chunk-index section scan advances the entry index by 1 + num_entries per record on every path. Thorough adds Kani on the compiled search (f64 interpolation intact) for all tables of 3 entries.", "Table sortedness (serialize_from) assumed, f64 interpolation replaced by an arbitrary value before the clamp, reader contract (seek / sequential reads) assumed; streaming / minimal readers, byte totals and serialize_from are outside."),
  "C11": ("other", MB, "mirsym", "Solver-decided registration obligations over the upload session's MIR: a (non-empty) xorb reaches the uploader only after its chunk list was added to the session shard, on both the mid-file and the aggregated path; an uploaded shard is exported to the cache and registered before Ok. Violations are confirmed by a native two-session re-upload replay.", "Paths over-approximated; ShardFileManager makes added CAS blocks visible (C05/C09 side); the quantitative 'no new bytes for any recombination' is outside."),
  "C12": ("model_checking", KANI + "; " + MB, "kani+mirsym", "Bounded model checking of the chunk cache's directory-name and file-name parsers on arbitrary byte strings of the stated lengths: no panic, parsed items have non-empty ranges. Mode B over get_impl: an unverified item reaches the data only through the checksum computation, is marked verified only after its checksum compared equal, a mismatch leads to removal and a new lookup.", "fmt stubs; memory-safety checks off (safe Rust, base64 decode); histories of put/get/evict/re-open and CRC detection outside."),
  "C13": ("model_checking", MA, "mirsym", "Inductive step over DiskCache::put_impl's MIR from an arbitrary tracked state (including an item equal to the one being inserted - the state only the duplicate-put interleaving reaches): every item leaving the tracked vector is subtracted with exactly its length; counters change by exactly the removed / inserted amounts around eviction; eviction is asked for exactly the new item's length.", "Calls havocked (incl. writes through &mut arguments); eviction loop and re-open accounting outside; the interleaving itself is replayed natively through a guarded schedule point."),
@@ -27,7 +28,6 @@ C = {
 NA = {
  "C01": "end-to-end upload/download needs FileDeduper/DataAggregator segment bookkeeping under symbolic dedup structure: Kani cannot get hashbrown + vectors of symbolic length through CBMC (measured: > 10 GB / no termination at 2-3 chunks, DESIGN.md section 6) and the sessions are tokio; the decidable pieces are claimed under C04, C07, C14, C17",
  "C06": "blake3 is C/asm FFI that Kani cannot execute; the pure-Rust construction harnesses (MerkleMemDB vs cas_node_hash) were not reached within the time budget",
- "C09": "interpolation search (f64 arithmetic bit-blasted) and shard serialization through Cursor/Vec were not reached within the time budget after the CBMC cost of Vec/io::copy became clear",
  "C10": "set operations over serialized shards (Cursor + Vec writers) exceed what CBMC finished here; the consolidation ordering part is decided under C19",
  "C20": "interleavings of tokio tasks (Notify, async Mutex, spawn, panics): Kani does not model concurrency and ICEs on tokio; mirsym path obligations cannot express lost wake-ups",
 }
